@@ -275,6 +275,34 @@ func c13(c *Ctx) {
 		if enc, err := resp.DateTime.MarshalUT0311L0x(); err != nil || string(enc) != string(wire) {
 			viol("C13:datetime:encode", fmt.Sprintf("date-time %s re-encodes as %x, expected %x", want, enc, wire), map[string]any{"civil": want, "mode": tag})
 		}
+		// the same reply through the API (GetTime, and SetTime's echo) of a client whose controller is configured with a zone of its own
+		if caseNo%3 == 0 {
+			serial := uint32(405419896)
+			for _, name := range []string{"GetTime", "SetTime"} {
+				reply := append([]byte{}, msg...)
+				reply[1] = rm.FindOp(name).Fn
+				copy(reply[4:8], []byte{byte(serial), byte(serial >> 8), byte(serial >> 16), byte(serial >> 24)})
+				d.Reset()
+				d.Script = func(adapter.Invocation) ([][]byte, error) { return [][]byte{append([]byte{}, reply...)}, nil }
+				var got string
+				var err error
+				if name == "GetTime" {
+					var r *types.Time
+					if r, err = u.GetTime(serial); err == nil && r != nil {
+						got = adapter.PDateTime(r.DateTime).String()
+					}
+				} else {
+					var r *types.Time
+					if r, err = u.SetTime(serial, time.Date(cv.y, time.Month(cv.m), cv.d, cv.h, cv.mi, cv.s, 0, time.Local)); err == nil && r != nil {
+						got = adapter.PDateTime(r.DateTime).String()
+					}
+				}
+				c.Res.Eval(1)
+				if err != nil || got != want {
+					viol("C13:datetime:"+name, fmt.Sprintf("%s: the controller's date-time transmitted as %s is reported as %s (err %v)", name, want, got, err), map[string]any{"civil": want, "got": got, "mode": tag})
+				}
+			}
+		}
 	}
 
 	// ---- controller system date + time in a status (GetStatus through the in-memory driver, and the event listener)
